@@ -42,7 +42,7 @@ for d in sorted(glob.glob(os.path.join(V, "seeded", "*"))):
         r = json.loads(line)
     except Exception:
         r = {"caught": {}, "raw": line[:200]}
-    ok = any(v for v in r.get("caught", {}).values())
+    ok = any(v == 1 for v in r.get("caught", {}).values())     # exit 2 = the check itself broke: not a catch
     print(name, r.get("caught"), "" if ok else "   <-- MISSED", flush=True)
     if not ok:
         missed.append(name)
